@@ -514,8 +514,10 @@ def channelDlUpdate (rs : RegionState) (index freq : Nat) : M ((Bool × Bool) ×
         match en, slot with
         | true, some c =>
           if c.freq != 0 then
-            let c' := { c with dlFreq := if freq == c.freq then none else some freq }
-            pure ((fv, true), { rs with plan := .dyn { p with channels := p.channels.set index (some c') } })
+            if fv then
+              let c' := { c with dlFreq := if freq == c.freq then none else some freq }
+              pure ((fv, true), { rs with plan := .dyn { p with channels := p.channels.set index (some c') } })
+            else pure ((fv, true), rs)
           else pure ((fv, false), rs)
         | _, _ => pure ((fv, false), rs)
 
